@@ -88,7 +88,13 @@ def check_case(case: dict) -> Outcome:
     rules, corrs = case["rules"], case["corrs"]
     main = corrs[0]
     c = main["correlation"]
-    refs = c["rules"] if isinstance(c.get("rules"), list) else [c["rules"]]
+    if c.get("rules") is None:
+        # no rules list: the referenced rules are those of the extended condition in order of first appearance
+        toks = rc.tokenize(c["condition"])
+        refs = list(dict.fromkeys(t for t in toks if t not in ("(", ")", "and", "or", "not")))
+        out.label("no-rules-list")
+    else:
+        refs = c["rules"] if isinstance(c.get("rules"), list) else [c["rules"]]
     by_key = {}
     for d in rules:
         for k in (d.get("name"), d.get("id")):
@@ -295,6 +301,14 @@ def cases(draw):
                     e = f"({e})"
             if draw(st.integers(0, 4)) == 0:
                 e = "not " + (e if e.startswith("(") else f"({e})")
+            if draw(st.integers(0, 2)) == 0:
+                # repeat a rule name; without a rules list the order of first appearance counts
+                e = f"({e}) {draw(st.sampled_from(['and', 'or']))} {draw(st.sampled_from(refs))}"
+                if draw(st.booleans()):
+                    del c["rules"]
+                    c.pop("aliases", None)
+                    if "al" in (c.get("group-by") or []):
+                        c.pop("group-by")
             c["condition"] = e
     else:
         c["condition"] = {op: draw(st.integers(0, 100))}
